@@ -428,6 +428,13 @@ func (fv *FnV) doUnOp(st *State, ins *ssa.UnOp) error {
 		t := ins.Type()
 		v := fv.c.Define(ins.Name(), g.sortOf(t), fv.loadAt(st, p, t))
 		fv.assume(st, fv.wf(v, t, st.now))
+		// assumption A-AST: the parser never puts a nil node into a list of nodes
+		if p.kind == pElem && len(p.path) == 0 {
+			if pt, ok := types.Unalias(t).Underlying().(*types.Pointer); ok && strings.Contains(pt.Elem().String(), "sqlparser") {
+				fv.assume(st, not(eq(v, "nil!ref")))
+				fv.g.abstracted["assumed: elements of AST node lists are non-nil (parser output)"]++
+			}
+		}
 		fv.vals[ins] = fv.fromTerm(v, t)
 		fv.markGuarded(ins, ins.X)
 	case token.NOT:
